@@ -37,7 +37,7 @@ def key_tag(key):
         for el in key[2:]:
             if isinstance(el, str):
                 return el
-        return "<untagged>"
+        return f"<untagged:{len(key)}>"          # no hand-written tag: told apart by arity only
     return "<nontuple>"
 
 
@@ -254,6 +254,7 @@ def run_history(spy, fam, params, history, twin_memo, rtol=1e-9):
         twin = fam.fresh(params, twin=True)
     steps, worst, mismatch, where = [], 0.0, None, None
     hits = own_hits = 0
+    fp0 = fam.fingerprint(real)
     for i, name in enumerate(history):
         op = fam.ops[name]
         rec = StepRecord()
@@ -285,7 +286,7 @@ def run_history(spy, fam, params, history, twin_memo, rtol=1e-9):
             break
     fam.dispose(real)
     fam.dispose(twin)
-    return {"steps": steps, "mismatch": mismatch, "rel": worst, "where": where, "hits": hits, "own_hits": own_hits,
+    return {"fp0": fp0, "steps": steps, "mismatch": mismatch, "rel": worst, "where": where, "hits": hits, "own_hits": own_hits,
             "mismatch_rel": (rel if mismatch is not None else None)}
 
 
